@@ -1,5 +1,6 @@
 import GixModel.Lemmas.C27
 import GixModel.Lemmas.C27Body
+import GixModel.Lemmas.C27Value
 /-
 C27 — Config values are interpreted like git.  PROPERTY THEOREMS ONLY.
 
@@ -18,8 +19,8 @@ base 0), tied to the git 2.39.5 binary by the same harness. What is proved:
   Over the suffix table EXTRACTED from integer.rs.
 * `section_match_case`, `section_match_like_git`, `lookup_last_section_wins`.
 * `lookup_last_value` / `lookup_last_wins` (ALL parsed files): last one wins inside a section too.
-Not proved (kept as `value_eq_git_full`): equality of the value text git's one-pass `parse_value`
-produces with gitoxide's events + normalize. The known, listed differences between the two programs are outside every
+* `value_eq_git` (ALL texts in `plainText`): git's one-pass `parse_value` and gitoxide's events +
+  `normalize` accept the same texts and read the same value; `value_differs_outside_domain`. The known, listed differences between the two programs are outside every
 theorem's domain by construction (see the config's level_note).
 -/
 namespace GixModel.Props.C27
@@ -147,21 +148,25 @@ example : ∃ f, fileFromBytes [91, 97, 93, 10, 107, 61, 49, 10, 91, 65, 93, 10,
     (rawValue f [97] none [75]).toOption = some [50] ∧ (rawValues f [97] none [107]).toOption = some [[49], [50]] := by
   refine ⟨_, rfl, by decide +kernel, by decide +kernel⟩
 
-/-- gitoxide's reading of the text that follows `=`: the events of `value_impl`, concatenated and
-normalized -/
-def gixValueOfText (text : Bytes) : Option Bytes :=
-  match valueScan (optSpaces text).2 [] false false [] with
-  | none => none
-  | some (evs, _) =>
-    some (normalize (evs.flatMap fun e => match e with
-      | .value v => v | .notDone v => v | .done v => v | _ => []))
+/-- `value_eq_git`: for EVERY text after `=` that is free of the known differences (`plainText`: no
+CR, TAB or FF, no `\b` escape, no backslash as last byte, no unquoted space while the value is
+still empty after a quote or continuation), gitoxide — `value_impl`'s events, concatenated, then
+`normalize` — and git — `parse_value` — accept the same texts and read the same value. Quotes,
+escapes `\n \t \\ \"`, continuation lines, comments after the value, inner and trailing blanks,
+missing final newline are all inside the domain. Proved by a simulation (`Lemmas/C27Value.lean`). -/
+theorem value_eq_git (text : Bytes) (hp : plainText text = true) :
+    gixValueOfText text = gitParseValue text :=
+  value_eq_git_proof text hp
 
-/-- Full statement (NOT proved; evaluated by the harness oracle against the git binary on every
-generated text): on text free of the listed differences — `\b` escapes, TAB / FF / lone CR outside
-quotes, whitespace read while the value is still empty after a quote or a continuation — both
-programs accept the same texts and read the same value. -/
-def value_eq_git_full (plain : Bytes → Prop) : Prop :=
-  ∀ text, plain text → gixValueOfText text = gitParseValue text
+-- non-vacuity: ` "a b"  c\"d \<LF>  e ; comment` is plain; both read `a b  c"d   e`
+example : plainText [32, 34, 97, 32, 98, 34, 32, 32, 99, 92, 34, 100, 32, 92, 10, 32, 32, 101, 32, 59, 32, 120] = true ∧
+    gitParseValue [32, 34, 97, 32, 98, 34, 32, 32, 99, 92, 34, 100, 32, 92, 10, 32, 32, 101, 32, 59, 32, 120] =
+      some [97, 32, 98, 32, 32, 99, 34, 100, 32, 32, 32, 101] := by decide +kernel
+
+/-- the domain is needed: on `a<TAB>b` the two differ (git 2.39: `a b`) -/
+theorem value_differs_outside_domain :
+    plainText [97, 9, 98] = false ∧ gixValueOfText [97, 9, 98] = some [97, 9, 98] ∧
+      gitParseValue [97, 9, 98] = some [97, 32, 98] := by decide +kernel
 
 /-- Last one wins INSIDE a section, for every parsed file and every key: `Body::value` (the backwards
 index scan of `key_and_value_range_by`, then `value_implicit`) is the last element of
